@@ -654,10 +654,10 @@ _CO = "skfem/assembly/form/coo_data.py"
 _FM = "skfem/assembly/form/form.py"
 MUTANTS = [
     ("bilinear: slot stride uses the trial size",
-     (_B, "                ixs = slice(nt * (vbasis.Nbfun * j + i),\n"
-      "                            nt * (vbasis.Nbfun * j + i + 1))",
-      "                ixs = slice(nt * (ubasis.Nbfun * j + i),\n"
-      "                            nt * (ubasis.Nbfun * j + i + 1))"),
+     (_B, "                ixs = slice(nt * (ubasis.Nbfun * i + j),\n"
+      "                            nt * (ubasis.Nbfun * i + j + 1))",
+      "                ixs = slice(nt * (vbasis.Nbfun * i + j),\n"
+      "                            nt * (vbasis.Nbfun * i + j + 1))"),
      "C01-R2"),
     ("bilinear: row and column sources exchanged",
      (_B, "                rows[ixs] = vbasis.element_dofs[i]\n"
@@ -667,10 +667,10 @@ MUTANTS = [
     ("bilinear: data flattened in Fortran order",
      (_B, "data = data.flatten('C')", "data = data.flatten('F')"), "C01-R2"),
     ("bilinear: kernel receives test function first",
-     (_B, "                    data[j, i, :] = self._kernel(\n"
+     (_B, "                    data[i, j, :] = self._kernel(\n"
       "                        ubasis.basis[j],\n"
       "                        vbasis.basis[i],",
-      "                    data[j, i, :] = self._kernel(\n"
+      "                    data[i, j, :] = self._kernel(\n"
       "                        vbasis.basis[i],\n"
       "                        ubasis.basis[j],"), "C01-R1"),
     ("bilinear: global shape transposed",
@@ -742,10 +742,22 @@ MUTANTS = [
 ]
 TWINS = [
     ("bilinear: slot variable renamed and computed from a base",
-     (_B, "                ixs = slice(nt * (vbasis.Nbfun * j + i),\n"
-      "                            nt * (vbasis.Nbfun * j + i + 1))",
-      "                base = nt * (vbasis.Nbfun * j + i)\n"
+     (_B, "                ixs = slice(nt * (ubasis.Nbfun * i + j),\n"
+      "                            nt * (ubasis.Nbfun * i + j + 1))",
+      "                base = nt * (ubasis.Nbfun * i + j)\n"
       "                ixs = slice(base, base + nt)")),
+    ("bilinear: trial-major layout with matching slots (old layout)",
+     [(_B, "                ixs = slice(nt * (ubasis.Nbfun * i + j),\n"
+       "                            nt * (ubasis.Nbfun * i + j + 1))",
+       "                ixs = slice(nt * (vbasis.Nbfun * j + i),\n"
+       "                            nt * (vbasis.Nbfun * j + i + 1))"),
+      (_B, "data = np.zeros((vbasis.Nbfun, ubasis.Nbfun, nt), "
+       "dtype=self.dtype)", "data = np.zeros((ubasis.Nbfun, vbasis.Nbfun, "
+       "nt), dtype=self.dtype)"),
+      (_B, "                    data[i, j, :] = self._kernel(",
+       "                    data[j, i, :] = self._kernel("),
+      (_B, "            data[i, j] = self._kernel(", "            data[j, i] "
+       "= self._kernel(")]),
     ("linear: kernel written with a negative axis",
      (_L, "return np.sum(self.form(*v, w) * dx, axis=1)",
       "return np.sum(dx * self.form(*v, w), axis=-1)")),
